@@ -1,4 +1,5 @@
 import Qhttp.Model.Http
+import Qhttp.Lemmas.C19Step
 /-
   C19 — one request per connection; nothing is sent or routed after the close.
 -/
@@ -33,5 +34,172 @@ def holds (sc : Scenario) (obs : List Obs) : Bool :=
   Obs.countP Obs.isTc obs ≤ 1 && Obs.countP Obs.isDc obs ≤ 1 &&
   (if Obs.countP Obs.isTc obs == 1 && pending sc.events obs 0 0 == 0
    then Obs.countP Obs.isDc obs == 1 else true)
+
+end Qhttp.C19
+
+/-! ## Theorems -/
+
+namespace Qhttp.C19
+open Qhttp
+
+/-- observations an application `note` may record without touching what C19 counts
+    (`ev` markers and `w` feed the `pending` walk, the others are counted) -/
+def quietObs : Obs → Bool
+  | .hp => false | .rt _ _ => false | .w _ => false | .tc => false | .dc => false | .ev _ => false
+  | _ => true
+
+/-- an API call that records nothing C19 counts: every call except such a `note` -/
+def quietOp : ApiOp → Bool
+  | .note o => quietObs o
+  | _ => true
+
+def isRtNote : ApiOp → Bool
+  | .note (.rt _ _) => true
+  | _ => false
+
+/-- what the `headersParsed` slot may do: anything quiet, and record a routing -/
+def hpOp (op : ApiOp) : Bool := isRtNote op || quietOp op
+
+/-- the application class: arbitrary reactions (functions of the socket state, any API calls) to
+    every signal; the only recorded routing is at most one `rt` per `headersParsed` (Server glue) -/
+structure AppOK (app : App) : Prop where
+  hp  : ∀ s, (app.onHp s).all hpOp = true ∧ ((app.onHp s).filter isRtNote).length ≤ 1
+  rr  : ∀ s, (app.onRr s).all quietOp = true
+  rcf : ∀ s, (app.onRcf s).all quietOp = true
+  bw  : ∀ s, (app.onBw s).all quietOp = true
+  dc  : ∀ s, (app.onDc s).all quietOp = true
+
+/-- API calls from idle context: anything but recording a counted observation -/
+def evOK : Event → Bool
+  | .api op => quietOp op
+  | _ => true
+
+/-! ### the definitions above and the ones the lemmas are stated with coincide -/
+
+theorem isRt_eq : isRt = C19L.isRt := by
+  funext o; cases o <;> rfl
+
+theorem afterClose_eq (l : List Obs) : afterClose l = C19L.aftClose l := rfl
+
+theorem ackOf_eq (evs : List Event) : ackOf evs = C19L.ackAt evs := by
+  funext k u
+  unfold ackOf C19L.ackAt
+  cases evs[k]? with
+  | none => rfl
+  | some e => cases e <;> rfl
+
+/-- `pending` is the difference of the (written, acked) walk -/
+theorem pending_eq (evs : List Event) (l : List Obs) (w a : Nat) :
+    pending evs l w a
+      = (C19L.trkFrom (ackOf evs) l (w, a)).1 - (C19L.trkFrom (ackOf evs) l (w, a)).2 := by
+  induction l generalizing w a with
+  | nil => rfl
+  | cons o l ih =>
+    cases o <;> simp only [pending, C19L.trkFrom, List.foldl_cons, C19L.trk1] <;> exact ih _ _
+
+theorem quietObs_eq : quietObs = C19L.quiet := by
+  funext o; cases o <;> rfl
+
+theorem quietOp_eq : quietOp = C19L.qOp := by
+  funext op; cases op <;> simp [quietOp, C19L.qOp, quietObs_eq]
+
+theorem isRtNote_eq : isRtNote = C19L.rtNote := by
+  funext op
+  cases op with
+  | note o => cases o <;> rfl
+  | _ => rfl
+
+theorem hpOp_eq : hpOp = C19L.hOp := by
+  funext op; simp [hpOp, C19L.hOp, isRtNote_eq, quietOp_eq]
+
+theorem evOK_eq : evOK = C19L.evOK := by
+  funext e; cases e <;> simp [evOK, C19L.evOK, quietOp_eq]
+
+theorem AppOK.toL {app : App} (h : AppOK app) : C19L.AppOK app where
+  hp := fun s => by have := h.hp s; rwa [hpOp_eq, isRtNote_eq] at this
+  rr := fun s => by have := h.rr s; rwa [quietOp_eq] at this
+  rcf := fun s => by have := h.rcf s; rwa [quietOp_eq] at this
+  bw := fun s => by have := h.bw s; rwa [quietOp_eq] at this
+  dc := fun s => by have := h.dc s; rwa [quietOp_eq] at this
+
+/-- `holds`, spelled out -/
+theorem holds_iff (sc : Scenario) (obs : List Obs) :
+    holds sc obs = true ↔
+      Obs.countP Obs.isHp obs ≤ 1 ∧ Obs.countP isRt obs ≤ 1 ∧ afterClose obs = true ∧
+      Obs.countP Obs.isTc obs ≤ 1 ∧ Obs.countP Obs.isDc obs ≤ 1 ∧
+      (Obs.countP Obs.isTc obs = 1 → pending sc.events obs 0 0 = 0 →
+        Obs.countP Obs.isDc obs = 1) := by
+  unfold holds
+  simp only [Bool.and_eq_true, decide_eq_true_eq, beq_iff_eq]
+  constructor
+  · rintro ⟨⟨⟨⟨⟨h1, h2⟩, h3⟩, h4⟩, h5⟩, h6⟩
+    refine ⟨h1, h2, h3, h4, h5, fun a b => ?_⟩
+    simpa [a, b] using h6
+  · rintro ⟨h1, h2, h3, h4, h5, h6⟩
+    refine ⟨⟨⟨⟨⟨h1, h2⟩, h3⟩, h4⟩, h5⟩, ?_⟩
+    split
+    · rename_i hc; exact beq_iff_eq.mpr (h6 hc.1 hc.2)
+    · rfl
+
+/-- every environment, every event list, every application of the class -/
+theorem holds_run (env : Env) (app : App) (evs : List Event)
+    (happ : AppOK app) (hevs : evs.all evOK = true) :
+    holds ⟨app, evs⟩ (Scenario.run env ⟨app, evs⟩).log = true := by
+  rw [evOK_eq] at hevs
+  have h := C19L.KS_final (C19L.run_KS (env := env) happ.toL evs hevs)
+  rw [holds_iff]
+  simp only [Scenario.run]
+  rw [isRt_eq, afterClose_eq, pending_eq, ackOf_eq]
+  exact h
+
+/-! ### non-vacuity -/
+
+/-- Bool check on a scripted application -/
+def scriptOK (sc : Script) : Bool :=
+  sc.onHp.all hpOp && decide ((sc.onHp.filter isRtNote).length ≤ 1) &&
+  sc.onRr.all quietOp && sc.onRcf.all quietOp && sc.onBw.all quietOp && sc.onDc.all quietOp
+
+theorem Script.appOK (sc : Script) (h : scriptOK sc = true) : AppOK sc.app := by
+  simp only [scriptOK, Bool.and_eq_true, decide_eq_true_eq] at h
+  obtain ⟨⟨⟨⟨⟨h1, h2⟩, h3⟩, h4⟩, h5⟩, h6⟩ := h
+  exact ⟨fun _ => ⟨h1, h2⟩, fun _ => h3, fun _ => h4, fun _ => h5, fun _ => h6⟩
+
+def exEnv : Env := { url := fun p => some (p, []), errPage := fun _ _ => [60, 62] }
+
+/-- the Server glue: route on the parsed path, answer, close; chatty but quiet elsewhere -/
+def exApp : App :=
+  { onHp := fun s => [.note (.rt 1 s.path), .write (lit ['h','e','l','l','o']), .close],
+    onRr := fun _ => [.readAll],
+    onBw := fun _ => [.avail],
+    onDc := fun _ => [.write (lit ['h','e','l','l','o']), .close] }
+
+theorem exApp_ok : AppOK exApp :=
+  ⟨fun _ => by simp [exApp, hpOp, isRtNote, quietOp, List.filter], fun _ => rfl, fun _ => rfl,
+   fun _ => rfl, fun _ => rfl⟩
+
+def exScript : Script :=
+  { onHp := [.note (.rt 1 [47, 97]), .write (lit ['h','e','l','l','o']), .close], onDc := [.close] }
+
+example : AppOK exScript.app := Script.appOK _ (by decide)
+
+/-- two pipelined requests cut inside the first blank line, then late API calls, late input,
+    a partial acknowledgement, the peer's close and the final acknowledgement -/
+def exEvents : List Event :=
+  [.new, .feed (lit ['G','E','T',' ','/','a',' ','H','T','T','P','/','1','.','1','\r','\n','\r']), .feed (lit ['\n','G','E','T',' ','/','b',' ','H','T','T','P','/','1','.','1','\r','\n','\r','\n']),
+   .api (.write (lit ['a','f','t','e','r'])), .api .wh, .api (.err 500 none),
+   .feed (lit ['G','E','T',' ','/','l','a','t','e',' ','H','T','T','P','/','1','.','1','\r','\n','\r','\n']), .ack 5, .peerClose, .ackAll]
+
+example : exEvents.all evOK = true := by decide
+
+example : holds ⟨exApp, exEvents⟩ (Scenario.run exEnv ⟨exApp, exEvents⟩).log = true := by
+  decide +kernel
+
+/-- the run above: one request notified, one routing, one close, one shutdown — and the second
+    request, the late calls and the late input leave no trace -/
+example :
+    let l := (Scenario.run exEnv ⟨exApp, exEvents⟩).log
+    Obs.countP Obs.isHp l = 1 ∧ Obs.countP isRt l = 1 ∧ Obs.countP Obs.isTc l = 1 ∧
+    Obs.countP Obs.isDc l = 1 ∧ Obs.countP Obs.isW l = 2 ∧ pending exEvents l 0 0 = 0 := by
+  decide +kernel
 
 end Qhttp.C19
